@@ -36,6 +36,24 @@ theorem facts_ladder_table :
     40 ≤ Facts.C03.table.length :=
   ⟨by decide, by decide, by decide, by decide, by decide⟩
 
+/-- the requests of one schedule probe: request `i` runs for its duration and returns a value,
+or never ends by itself -/
+def probeItems : Nat → List (Nat × Bool) → List TItem
+  | _, [] => []
+  | i, (d, never) :: rest =>
+    ⟨⟨i, .request, false, if never then .overruns else .returns (.value i)⟩, d⟩ :: probeItems (i + 1) rest
+
+/-- **Tie of the schedule to the running code.**  On every row of the observed schedule table -
+real sessions with 1, 2 and 3 slots, with and without a throttle sleep, given 3 to 5 requests at
+once - `schedule` predicts the instant at which every request completed (its handler reached its
+outcome, or the processing timeout answered for it), in the observed order. -/
+theorem facts_schedule_table :
+    (∀ row ∈ Facts.C03.scheduleTable,
+      (schedule { slots := row.1, deadline := Facts.C03.probeDeadline, throttle := row.2.1 }
+          (probeItems 0 row.2.2.1)).map (fun ev => (ev.2.id, ev.1)) = row.2.2.2) ∧
+    20 ≤ Facts.C03.scheduleTable.length :=
+  ⟨by decide, by decide⟩
+
 /-! ## One item -/
 
 /-- the behaviours the property quantifies over, plus the limiter's refusal (not a handler
